@@ -14,6 +14,7 @@
 // See the License for the specific language governing permissions and
 // limitations under the License.
 
+#[cfg_attr(feature = "verif", allow(unused_imports))]
 use std::collections::HashMap;
 
 use crate::stack::{Stack, StackObjectRef};
@@ -36,7 +37,11 @@ pub struct State {
     pub stack: Stack,
 
     /// Memoization table mapping indices to stack objects
+    #[cfg(not(feature = "verif"))]
     pub memo: HashMap<usize, StackObjectRef>,
+    /// Memoization table (simulator-keyed hasher under the verification feature)
+    #[cfg(feature = "verif")]
+    pub memo: crate::verif::SimHashMap<usize, StackObjectRef>,
 }
 
 impl State {
